@@ -8,6 +8,7 @@ import (
 	"fmt"
 	"math/rand"
 	"reflect"
+	"strings"
 
 	jwt "github.com/nats-io/jwt/v2"
 )
@@ -25,10 +26,16 @@ type valGen struct {
 }
 
 var strPool = []string{"", "a", "foo.bar", "x y", "<html>&amp;\"q\"", "héllo wörld", "日本語", "tab\there", "new\nline", "back\\slash", "q\"uote",
-	"foo.*", ">", "a.b.>", "UPPER", "null", "0", "-", " ", "emoji😀", "long-" + "0123456789abcdefghijklmnopqrstuvwxyz0123456789abcdefghijklmnopqrstuvwxyz"}
+	"foo.*", ">", "a.b.>", "UPPER", "null", "0", "-", " ", "emoji😀", "long-" + "0123456789abcdefghijklmnopqrstuvwxyz0123456789abcdefghijklmnopqrstuvwxyz",
+	// unusual but legal content
+	"a=b", "50%", "%s%d%v", "--dash--", "dots...", ".", "\x00", "nul\x00inside", "e\u0301 combining", "\u200bzero-width", "\u2028line-sep", "trailing ", " leading",
+	"\r\n", "{\"json\":1}", "[1,2]", "\\u0041", "</script>", "\x7f", strings.Repeat("very-long-", 300)}
 
 var intPool = []int64{0, 1, -1, 2, 100, 101, 255, 256, 1 << 31, -(1 << 31), 1<<53 - 1, 1 << 53, 1<<53 + 1, -(1<<53 + 1),
-	1<<62 + 12345, 9223372036854775807, -9223372036854775808, 1700000000, 42}
+	1<<62 + 12345, 9223372036854775807, -9223372036854775808, 1700000000, 42,
+	// neither tiny nor at a type's limit
+	7, 1000, 65535, 65536, 1<<31 - 1, 1<<32 - 1, 1 << 32, 1<<32 + 1, 999999999, 1000000000, 1<<40 + 3, 123456789012345, -42, -100000, 1<<63 - 2, -(1<<63 - 1), 9007199254740993,
+	1500000000000, 20000000000, 86400, 3600000000000}
 
 func (g *valGen) str() string { return strPool[g.rng.Intn(len(strPool))] }
 
